@@ -79,7 +79,7 @@ Lemma out_step_in : forall x l, out_step x (EIn l) = Some x.
 Proof. reflexivity. Qed.
 
 Lemma ROut_in_ign : forall W hs xa, in_ign ustep out_step (fun _ => True) (ROut W hs xa).
-Proof. intros W hs xa h x s l _ _. split; [reflexivity|]. intros h' E. inversion E. reflexivity. Qed.
+Proof. intros W hs xa h x s l h' x' _ HR E1 E2. inversion E1. rewrite out_step_in in E2. inversion E2. subst. exact HR. Qed.
 
 Lemma ROut_frame : forall W hs xa u x s s',
   ROut W hs xa u x s ->
